@@ -215,6 +215,18 @@ func genPlan(rng *hx.Rng, r *tbl.Raw, faulty bool) *plan {
 			p.StscCalls = append(p.StscCalls, stscCall{Kind: 'a', E: rows[i]})
 		}
 	}
+	// calls with sample description id 0 anywhere in the history: AddEntry refuses them, SetSingleSampleDescriptionID
+	// ignores them (repaired text); neither the box nor the table the history describes changes
+	if rng.Intn(100) < 35 {
+		for k := rng.Range(1, 2); k > 0; k-- {
+			z := stscCall{Kind: 's', X: 0}
+			if rng.Bool() {
+				z = stscCall{Kind: 'a', E: [3]uint32{uint32(rng.Range(1, 6)), uint32(rng.Range(0, 4)), 0}}
+			}
+			at := rng.Intn(len(p.StscCalls) + 1)
+			p.StscCalls = append(p.StscCalls[:at], append([]stscCall{z}, p.StscCalls[at:]...)...)
+		}
+	}
 	// ---- plain boxes
 	for i := range p.Modes {
 		p.Modes[i] = byte(rng.Pick('L', 'D'))
